@@ -327,9 +327,12 @@ class Parser:
     def expand_macro(self, buf, tok, math):
         # skip space for macros without arguments, even if known;
         # but do not swallow a language switch, e.g. the end of the
-        # argument of \foreignlanguage
+        # argument of \foreignlanguage;
+        # an action token marks the end of a substituted macro argument:
+        # the space behind it does not follow the macro name in the source
         t = buf.next()
-        while buf.is_space(t) and type(t) is not defs.LanguageToken:
+        while (buf.is_space(t) and type(t) not in
+                                (defs.LanguageToken, defs.ActionToken)):
             t = buf.next()
         if tok.txt not in self.the_macros:
             if not (math or tok.txt in self.unknowns):
